@@ -176,7 +176,7 @@ class Walker:
                 continue
             if n == 'kind' and cls in ('IntLiteral', 'FloatLiteral', 'LogicLiteral', 'StringLiteral'):
                 # literal kind suffix: a name (str or symbol)
-                if _is_expr(v):
+                if _is_expr(v) and not str(getattr(v, 'name', 'x'))[:1].isdigit():
                     self.expr(v, 'var')
                 continue
             self.expr(v, 'var')
@@ -314,6 +314,10 @@ class Walker:
             self.assoc = self.assoc[:-1]
 
     def node_Import(self, n):
+        if n.c_import and str(n.module).lower().endswith('.intfb.h'):
+            # interface header of an external routine: declares that procedure
+            self.info.procs.add(str(n.module).lower()[:-len('.intfb.h')])
+            return
         if n.c_import or n.f_include:
             self.info.opaque = True
             return
